@@ -56,6 +56,11 @@ def run_in_child(fn, job, timeout):
             io = ChildIO(w)
             try:
                 out = fn(job, io)
+                _S = sys.modules.get('optsim.scenario')
+                if _S is not None and getattr(_S, 'CLEANUP_ERRORS', None) and isinstance(out, dict):
+                    out.setdefault('violations', [])
+                    if not out['violations']:
+                        out['violations'].append({'cls': 'cleanup-failed', 'site': 'registry', 'msg': '; '.join(_S.CLEANUP_ERRORS[:3])})
                 data = json.dumps({'result': out})
             except BaseException:  # noqa: BLE001
                 data = json.dumps({'harness_error': traceback.format_exc()})
